@@ -585,6 +585,97 @@ disp_harness! {
 }
 
 // -----------------------------------------------------------------------------------------
+// U-effect-full (C13 / C11 / C05): the effect phase against a FULL BlockOnFull dispatch queue.
+// While the reducer context is inside do_effect nobody takes from the dispatch queue (it is
+// the only consumer), so a wait of the reducer context on that queue can never end: the
+// block hook reports it as a deadlock.  A pool worker that waits is served by the reducer
+// once it is back in its loop (one take per wait).
+// -----------------------------------------------------------------------------------------
+static mut EFULL_SERVED: u8 = 0;
+fn efull_block(kind: u8, obj: usize) {
+    unsafe {
+        if kind == crossbeam::hooks::SEND && obj == 0 && rt::ctx() == rt::CTX_POOL && EFULL_SERVED < 2 {
+            EFULL_SERVED += 1;
+            crossbeam::channel::model_take_head::<crate::store_impl::ActionOp<Act>>(0);
+            return;
+        }
+    }
+    panic!("VERIF-DEADLOCK: the reducer context waits for room in its own full dispatch queue (it is the only consumer)");
+}
+
+fn u_effect_full(k0: u8, k1: u8, cap: usize) {
+    rt::reset_all();
+    script::reset();
+    crossbeam::hooks::set_native(None, Some(efull_block));
+    unsafe {
+        EFULL_SERVED = 0;
+    }
+    let store = mk_store(1, 0, cap, BackpressurePolicy::BlockOnFull, kani::any());
+    let mut i = 0;
+    while i < cap {
+        let r = crate::StoreImpl::dispatch(&store, kani::any());
+        core::mem::forget(r);
+        i += 1;
+    }
+    let s: St = kani::any();
+    let a: Act = kani::any();
+    let follow: Act = kani::any();
+    let mut effects: Vec<Effect<Act>> = Vec::new();
+    let mut n0 = 0usize;
+    let mut follow_ups = 0usize;
+    if k0 != E_NONE {
+        effects.push(make_effect(k0, 0, follow | 1).unwrap());
+        n0 += 1;
+        if k0 == E_ACTION || k0 == E_THUNK {
+            follow_ups += 1;
+        }
+    }
+    if k1 != E_NONE {
+        effects.push(make_effect(k1, 1, follow | 1).unwrap());
+        n0 += 1;
+        if k1 == E_ACTION || k1 == E_THUNK {
+            follow_ups += 1;
+        }
+    }
+    let g0 = crossbeam::channel::ghost(0);
+    chk!(5, g0.len == cap, "queue filled to its capacity");
+    let tasks0 = rusty_pool::ghost::tasks();
+    let disp: Arc<dyn Dispatcher<Act>> = Arc::new(store.clone());
+    in_reducer(|| store.do_effect(&a, &s, &mut effects, disp));
+    core::mem::forget(effects);
+    let g1 = crossbeam::channel::ghost(0);
+    chk!(13, g1.n_send_waited == g0.n_send_waited, "the effect phase returns without the reducer context waiting on its own queue");
+    chk!(11, g1.len == g0.len && g1.n_taken == g0.n_taken, "the effect phase itself enqueues nothing: follow-up actions are enqueued by workers");
+    chk!(11, rusty_pool::ghost::tasks() == tasks0 + n0, "one pool submission per effect, also with a full queue");
+    chk!(11, unsafe { EFF_RUN[0] == 0 && EFF_RUN[1] == 0 }, "no effect body runs inline in the reducer context");
+    // workers run: each follow-up dispatch waits (queue full) and is served by one reducer take
+    let ran = rt::run_pending(4);
+    let g2 = crossbeam::channel::ghost(0);
+    chk!(11, ran == n0, "the pool holds exactly the submitted effects");
+    chk!(5, g2.max_len <= cap && g2.len == cap, "BlockOnFull: the queue never exceeds its capacity, follow-ups take exactly the freed slots");
+    chk!(5, g2.n_taken == g1.n_taken + follow_ups && unsafe { EFULL_SERVED } as usize == follow_ups, "every follow-up action waited for room and was then accepted (lossless), once each");
+    chk!(13, true, "every worker returned");
+    kani::cover!(follow_ups > 0, "COVER-OPT a follow-up action waited for room");
+    core::mem::forget(store);
+    finish!(5, 11, 13);
+}
+macro_rules! efull_harness {
+    ($($name:ident = ($a:expr, $b:expr, $c:expr);)+) => { $(
+        harness! {
+            #[kani::stub(crossbeam::hooks::block, efull_block)]
+            #[kani::unwind(6)]
+            fn $name() { u_effect_full($a, $b, $c); }
+        }
+    )+ };
+}
+efull_harness! {
+    u_effect_full_action_cap1 = (E_ACTION, E_NONE, 1);
+    u_effect_full_action_thunk_cap1 = (E_ACTION, E_THUNK, 1);
+    u_effect_full_thunk_action_cap2 = (E_THUNK, E_ACTION, 2);
+    u_effect_full_task_action_cap2 = (E_TASK, E_ACTION, 2);
+}
+
+// -----------------------------------------------------------------------------------------
 // S-late (C07): a middleware / reducer registered by another thread while the reducer
 // context is inside a callback of the current action must be part of the NEXT action
 // -----------------------------------------------------------------------------------------
